@@ -148,7 +148,7 @@ def check(case):
         with sut.tmpdir() as d:
             path = os.path.join(d, "out.shex")
             r, c2 = sut.shex(kw2, acceptance_threshold=thr, string_output=False, output_file=path)
-            out2 = open(path, encoding="utf-8").read() if c2 is None and os.path.exists(path) else None
+            out2 = open(path, encoding="utf-8", newline="").read() if c2 is None and os.path.exists(path) else None
             if c2 is None and out2 is None:
                 return violation("no file written")
     else:
